@@ -278,7 +278,7 @@ def shard(ctx):
             sets.append((tspecs, k, "default"))
 
         @hypothesis.seed(ctx.shard_seed(12))
-        @core.hyp_settings(1 if q else 4, shrink=False)
+        @core.hyp_settings(3 if q else 6, shrink=False)
         @given(st.lists(st.lists(siblings, min_size=2, max_size=2), min_size=2, max_size=5), st.sampled_from(sorted(FUNCS)), st.sampled_from(["noop", "default"]))
         def collect_siblings(vss, fname, rw):
             # TypedDict merging across traces with same-named nested classes (k=3): field and class order must not follow hashing
